@@ -1,13 +1,10 @@
-CONSTANTS MutPay = {5}
-  MutVals = {"zero"}
-  MaxMuts = 1
-  MutCuts = "none"
-  Lens = {0}
+CONSTANTS Descs <- TraceCase
 INIT TrInit
 NEXT TrNext
 CONSTRAINT Progress
 POSTCONDITION Accepted
-INVARIANT TypeOKAny
-INVARIANT SoundAny
-INVARIANT RestInside
+INVARIANT TypeOK
+INVARIANT LengthsAndChecksumsOK
+INVARIANT ParseRecovers
+INVARIANT ReserialiseSame
 CHECK_DEADLOCK FALSE
